@@ -30,6 +30,8 @@ from ..engine import (
     stmt_of,
     walk_no_nested,
 )
+from .. import pat
+from ..normal import clone, nfunc
 from ..report import Report
 from . import _orch
 from ._orch import ORCH, EXECUTE
@@ -269,14 +271,198 @@ def run(repo: Repo, R: Report) -> None:
     _schema_rules(repo, R)
 
     # ------------------------------------------------------------------ D4 one line per record
-    r_line = R.rule("C06-D4-one-line-per-record", "every write of the JSONL driver is json.dumps(record) (no indent) + newline", 5)
+    _line_rules(repo, R)
+
+
+# ---------------------------------------------------------------------------
+# D4: what the driver hands to the file
+# ---------------------------------------------------------------------------
+
+SAFE_ENCODE_ERRORS = {"backslashreplace", "replace", "ignore", "xmlcharrefreplace", "namereplace"}
+
+
+def _is_json_dumps(repo: Repo, mod, call: ast.AST) -> bool:
+    """``json.dumps(...)`` under any import spelling (import json [as j], from json import dumps [as d])."""
+    if not isinstance(call, ast.Call):
+        return False
+    d = call_name(call)
+    if not d:
+        return False
+    head, _, rest = d.partition(".")
+    target = mod.imports.get(head)
+    full = (target + ("." + rest if rest else "")) if target else d
+    return full == "json.dumps"
+
+
+class _SubstNames(ast.NodeTransformer):
+    def __init__(self, mapping: Dict[str, ast.AST]):
+        self.mapping = mapping
+
+    def visit_Name(self, node: ast.Name):
+        if isinstance(node.ctx, ast.Load) and node.id in self.mapping:
+            return clone(self.mapping[node.id])
+        return node
+
+
+def _bind_params(callee: ast.AST, call: ast.Call) -> Optional[Dict[str, ast.AST]]:
+    """Parameter name -> argument expression of *call* (receiver dropped for methods); None when not simple."""
+    from ..engine import parent
+    a = callee.args
+    pos = [x.arg for x in a.posonlyargs + a.args]
+    deco = {dotted_name(d) for d in getattr(callee, "decorator_list", [])}
+    if isinstance(parent(callee), ast.ClassDef) and "staticmethod" not in deco and isinstance(call.func, ast.Attribute) and pos:
+        pos = pos[1:]
+    if any(isinstance(x, ast.Starred) for x in call.args) or any(k.arg is None for k in call.keywords) or len(call.args) > len(pos):
+        return None
+    out: Dict[str, ast.AST] = dict(zip(pos, call.args))
+    for k in call.keywords:
+        out[k.arg] = k.value
+    return out
+
+
+def _param_names(fn: ast.AST) -> Set[str]:
+    a = fn.args
+    out = {x.arg for x in a.posonlyargs + a.args + a.kwonlyargs}
+    if a.vararg:
+        out.add(a.vararg.arg)
+    if a.kwarg:
+        out.add(a.kwarg.arg)
+    return out
+
+
+def _text_alternatives(repo: Repo, mod, fn: ast.AST, e: ast.AST, depth: int = 0) -> List[List[ast.AST]]:
+    """The text *e* evaluates to, as alternatives of concatenated terms: ``+`` chains and f-strings are
+    flattened, locals are replaced by the values assigned to them (every assignment is an alternative),
+    calls of repo functions by what they return (parameters substituted by the arguments)."""
+    if depth > 5:
+        return [[e]]
+    if isinstance(e, ast.BinOp) and isinstance(e.op, ast.Add):
+        ls = _text_alternatives(repo, mod, fn, e.left, depth + 1)
+        rs = _text_alternatives(repo, mod, fn, e.right, depth + 1)
+        return [l + r for l in ls for r in rs][:16]
+    if isinstance(e, ast.JoinedStr):
+        alts: List[List[ast.AST]] = [[]]
+        for v in e.values:
+            if isinstance(v, ast.FormattedValue) and v.conversion == -1 and v.format_spec is None:
+                sub = _text_alternatives(repo, mod, fn, v.value, depth + 1)
+            else:
+                sub = [[v]]
+            alts = [a + b for a in alts for b in sub][:16]
+        return alts
+    if isinstance(e, ast.Name) and e.id not in _param_names(fn):
+        vals = assigned_value(fn, e.id)
+        if vals:
+            out: List[List[ast.AST]] = []
+            for v in vals:
+                out.extend(_text_alternatives(repo, mod, fn, v, depth + 1))
+            return out[:16]
+    if isinstance(e, ast.Call) and not _is_json_dumps(repo, mod, e):
+        try:
+            targets = repo.resolve_call(mod, e)
+        except Exception:
+            targets = []
+        if len(targets) == 1 and isinstance(targets[0][1], ast.FunctionDef):
+            cmod, callee = targets[0]
+            binding = _bind_params(callee, e)
+            rets = [r.value for r in walk_no_nested(callee) if isinstance(r, ast.Return) and r.value is not None]
+            if binding is not None and rets and cmod is mod:
+                out = []
+                for rv in rets:
+                    for alt in _text_alternatives(repo, cmod, callee, rv, depth + 1):
+                        out.append([_SubstNames(binding).visit(clone(t)) for t in alt])
+                return out[:16]
+    return [[e]]
+
+
+def _one_json_line(repo: Repo, mod, terms: List[ast.AST], need_newline: bool = True) -> Tuple[bool, Optional[ast.Call]]:
+    """terms == [json.dumps(<record>, no indent)] + constant text equal to one newline."""
+    if not terms or not _is_json_dumps(repo, mod, terms[0]):
+        return False, None
+    d = terms[0]
+    ind = kwarg(d, "indent")
+    if ind is not None and not (isinstance(ind, ast.Constant) and ind.value is None):
+        return False, d
+    sep = kwarg(d, "separators")
+    if sep is not None and any(isinstance(x, ast.Constant) and isinstance(x.value, str) and "\n" in x.value for x in ast.walk(sep)):
+        return False, d
+    rest = terms[1:]
+    if not all(isinstance(t, ast.Constant) and isinstance(t.value, str) for t in rest):
+        return False, d
+    tail = "".join(t.value for t in rest)
+    return tail == ("\n" if need_newline else ""), d
+
+
+class _Write:
+    def __init__(self, qn: str, nf: ast.AST, call: ast.Call, ok: bool, dumps: List[ast.Call]):
+        self.qn, self.nf, self.call, self.ok, self.dumps = qn, nf, call, ok, dumps
+
+
+def _driver_writes(repo: Repo) -> List[_Write]:
+    """Every place where the JSONL driver hands text to a file object, analysed on the normal form of the
+    method (private helpers such as an encode-line function inlined)."""
+    cache = repo.__dict__.setdefault("_c06_writes", None)
+    if cache is not None:
+        return cache
     jmod = repo.module(JSONL)
+    out: List[_Write] = []
     for qn, f in [(q, n) for q, n in jmod.defs.items() if isinstance(n, FuncNode)]:
-        for c in calls_in(f):
-            if call_attr(c) == "write" and isinstance(c.func, ast.Attribute) and "file" in (dotted_name(c.func.value) or ""):
-                a = c.args[0] if c.args else None
-                ok = isinstance(a, ast.BinOp) and isinstance(a.op, ast.Add) and isinstance(a.right, ast.Constant) and a.right.value == "\n" and isinstance(a.left, ast.Call) and call_name(a.left) == "json.dumps" and kwarg(a.left, "indent") is None
-                R.check(ok, r_line, JSONL, qn, norm(c), "a record is not written as exactly one JSON line", c.lineno)
+        nf = nfunc(repo, JSONL, qn)
+        for c in calls_in(nf):
+            text: Optional[ast.AST] = None
+            newline_added = False
+            if call_attr(c) == "write" and isinstance(c.func, ast.Attribute) and len(c.args) == 1 and not c.keywords:
+                text = c.args[0]
+            elif call_name(c) == "print" and kwarg(c, "file") is not None and len(c.args) == 1:
+                end = kwarg(c, "end")
+                if end is None or (isinstance(end, ast.Constant) and end.value == "\n"):
+                    text, newline_added = c.args[0], True
+                else:
+                    text = ast.BinOp(left=c.args[0], op=ast.Add(), right=end)
+            if text is None:
+                continue
+            alts = _text_alternatives(repo, jmod, nf, text)
+            oks, ds = [], []
+            for terms in alts:
+                ok, d = _one_json_line(repo, jmod, terms, need_newline=not newline_added)
+                if not ok and d is not None and not newline_added:
+                    # write(json.dumps(r)) immediately followed by write("\n") on the same receiver
+                    ok0, _d = _one_json_line(repo, jmod, terms, need_newline=False)
+                    st = stmt_of(c)
+                    blk = _enclosing_block(st)
+                    nxt = blk[blk.index(st) + 1] if st in blk and blk.index(st) + 1 < len(blk) else None
+                    if ok0 and isinstance(nxt, ast.Expr) and isinstance(nxt.value, ast.Call) and call_attr(nxt.value) == "write" and norm(nxt.value.func) == norm(c.func) \
+                            and len(nxt.value.args) == 1 and isinstance(nxt.value.args[0], ast.Constant) and nxt.value.args[0].value == "\n":
+                        ok = True
+                oks.append(ok)
+                if d is not None:
+                    ds.append(d)
+            if all(isinstance(t, ast.Constant) and t.value == "\n" for terms in alts for t in terms):
+                # the newline half of a two-step write: judged with the preceding write
+                st = stmt_of(c)
+                blk = _enclosing_block(st)
+                prev = blk[blk.index(st) - 1] if st in blk and blk.index(st) > 0 else None
+                if isinstance(prev, ast.Expr) and isinstance(prev.value, ast.Call) and call_attr(prev.value) == "write" and norm(prev.value.func) == norm(c.func):
+                    continue
+            out.append(_Write(qn, nf, c, bool(oks) and all(oks), ds))
+    repo.__dict__["_c06_writes"] = out
+    return out
+
+
+def _line_rules(repo: Repo, R: Report) -> None:
+    r_line = R.rule("C06-D4-one-line-per-record", "every text the JSONL driver hands to its file is json.dumps(record) (no indent) followed by exactly one newline", 5)
+    r_enc = R.rule("C06-D4b-line-always-encodable", "the serialised line can be encoded whatever strings the record holds: json.dumps keeps ensure_ascii (escapes lone surrogates / non-ASCII), or the file is opened with a non-raising error handler", 5)
+    jmod = repo.module(JSONL)
+    writes = _driver_writes(repo)
+    opens = [c for f in jmod.defs.values() if isinstance(f, FuncNode) for c in calls_in(f) if call_attr(c) == "open"]
+    lenient = bool(opens) and all(isinstance(kwarg(c, "errors"), ast.Constant) and kwarg(c, "errors").value in SAFE_ENCODE_ERRORS for c in opens)
+    for w in writes:
+        R.check(w.ok, r_line, JSONL, w.qn, norm(w.call), "a record is not written as exactly one JSON line", w.call.lineno)
+        for d in w.dumps:
+            ea = kwarg(d, "ensure_ascii")
+            ascii_only = ea is None or (isinstance(ea, ast.Constant) and ea.value is True)
+            R.check(ascii_only or lenient, r_enc, JSONL, w.qn, norm(d),
+                    f"json.dumps(..., ensure_ascii={ast.unparse(ea) if ea is not None else 'True'}) lets raw non-ASCII text through to a strict text file: a string with a lone surrogate (os.fsdecode of a non-UTF-8 file name in a parameter value or an exception message) makes write() raise UnicodeEncodeError, so the record (SER / pipeline_end) is lost and the original exception is replaced",
+                    getattr(d, "lineno", w.call.lineno))
 
 
 def _last(path: Optional[List[str]]) -> str:
@@ -325,13 +511,22 @@ def _flatten(repo: Repo, schema: dict) -> Tuple[Set[str], Dict[str, dict]]:
     return required, props
 
 
-def _record_literal(fn: ast.FunctionDef) -> Optional[ast.Dict]:
-    for n in walk_no_nested(fn):
-        if isinstance(n, (ast.Assign, ast.AnnAssign)):
-            tgt = n.targets[0] if isinstance(n, ast.Assign) else n.target
-            if isinstance(tgt, ast.Name) and tgt.id == "record" and isinstance(n.value, ast.Dict):
-                return n.value
-    return None
+def _record_literal(repo: Repo, qn: str) -> Tuple[Optional[str], Optional[ast.Dict], ast.AST]:
+    """(local name, dict literal, normal form) of the record an emitter writes: the mapping that is the first
+    argument of the json.dumps whose text goes to the file - found by that role, not by the local's name."""
+    nf = nfunc(repo, JSONL, qn)
+    for w in _driver_writes(repo):
+        if w.qn != qn:
+            continue
+        for d in w.dumps:
+            arg = d.args[0] if d.args else kwarg(d, "obj")
+            if isinstance(arg, ast.Dict):
+                return None, arg, w.nf
+            if isinstance(arg, ast.Name):
+                for v in assigned_value(w.nf, arg.id):
+                    if isinstance(v, ast.Dict):
+                        return arg.id, v, w.nf
+    return None, None, nf
 
 
 def _schema_rules(repo: Repo, R: Report) -> None:
@@ -345,11 +540,17 @@ def _schema_rules(repo: Repo, R: Report) -> None:
         "run_space_end": "JsonlTraceDriver.on_run_space_end",
     }
     for rtype, qn in emitters.items():
-        f = repo.func(JSONL, qn)
-        lit = _record_literal(f)
+        repo.func(JSONL, qn)
+        rec, lit, f = _record_literal(repo, qn)
         if lit is None:
-            raise AnalysisError(f"{qn}: record dict literal not found")
+            raise AnalysisError(f"{qn}: the dict literal that is serialised and written was not found")
         keys = {k.value: v for k, v in zip(lit.keys, lit.values) if isinstance(k, ast.Constant)}
+        # unconditional `record[<const>] = v` stores at the top level of the method count as written keys
+        for st in f.body:
+            if isinstance(st, ast.Assign) and rec is not None:
+                for t in st.targets:
+                    if isinstance(t, ast.Subscript) and dotted_name(t.value) == rec and isinstance(t.slice, ast.Constant):
+                        keys.setdefault(t.slice.value, st.value)
         R.check(rtype in registry, r, JSONL, qn, f"registry[{rtype!r}]", "record type emitted by the driver is not in the trace registry", f.lineno)
         sname = registry.get(rtype, "").split("/")[-1]
         if not sname or not (repo.root / SCHEMA_DIR / sname).is_file():
@@ -364,7 +565,7 @@ def _schema_rules(repo: Repo, R: Report) -> None:
                 R.check(isinstance(v, ast.Constant) and v.value == spec["const"], r, JSONL, qn, f"{rtype}: {k} == {spec['const']!r}", f"record constant {k} differs from the schema's const", f.lineno)
         # required keys never removed again
         for c in calls_in(f):
-            if call_attr(c) in ("pop", "__delitem__") and dotted_name(c.func.value) == "record" and c.args and isinstance(c.args[0], ast.Constant):
+            if call_attr(c) in ("pop", "__delitem__") and isinstance(c.func, ast.Attribute) and rec is not None and dotted_name(c.func.value) == rec and c.args and isinstance(c.args[0], ast.Constant):
                 k = c.args[0].value
                 if k in req:
                     in_type_error_fallback = any(isinstance(a, ast.ExceptHandler) and "TypeError" in ast.unparse(a.type or ast.Constant(value="")) for a in ancestors(c))
@@ -377,7 +578,7 @@ def _schema_rules(repo: Repo, R: Report) -> None:
         for n in walk_no_nested(f):
             if isinstance(n, ast.Delete):
                 for t in n.targets:
-                    if isinstance(t, ast.Subscript) and dotted_name(t.value) == "record" and isinstance(t.slice, ast.Constant) and t.slice.value in req:
+                    if isinstance(t, ast.Subscript) and rec is not None and dotted_name(t.value) == rec and isinstance(t.slice, ast.Constant) and t.slice.value in req:
                         R.violation(r, JSONL, qn, norm(n), f"schema-required key {t.slice.value!r} is deleted", n.lineno)
         # early return before the write (record silently not written)
         if rtype in ("pipeline_start",):
@@ -435,8 +636,10 @@ def _schema_rules(repo: Repo, R: Report) -> None:
     one = repo.func(JSONL, "JsonlTraceDriver.on_node_event")
     for n in walk_no_nested(one):
         if isinstance(n, ast.DictComp) and n.generators and n.generators[0].ifs:
-            cond = ast.unparse(n.generators[0].ifs[0])
-            ok = cond.replace(" ", "") in ("visnotNone",) or "isinstance" in cond
+            # the filter speaks about the *value* being iterated: `<v> is not None`, or a JSON-type test of <v>
+            ok = len(n.generators) == 1 and len(n.generators[0].ifs) == 1 and (
+                pat.match("{_K_: _V_ for _K_, _V_ in _R_.items() if _V_ is not None}", n) is not None
+                or pat.match("{_K_: _V_ for _K_, _V_ in _R_.items() if isinstance(_V_, _T_)}", n) is not None)
             R.check(ok, r, JSONL, "JsonlTraceDriver.on_node_event", norm(stmt_of(n))[:120], "SER keys are filtered by something other than `is not None` / JSON-type fallback", n.lineno)
 
 
@@ -477,8 +680,9 @@ def _json_safety_rules(repo: Repo, R: Report, fallback_pops) -> None:
     SEM = "semantiva/metadata/semantic_id.py"
     vds = repo.func(SEM, "variable_domain_signature")
     n_leaves = 0
-    for ret in [n for n in walk_no_nested(vds) if isinstance(n, ast.Return) and isinstance(n.value, ast.Dict)]:
-        for k, v in zip(ret.value.keys, ret.value.values):
+    from ..engine import returned_values
+    for ret_value in [v for v in returned_values(vds) if isinstance(v, ast.Dict)]:
+        for k, v in zip(ret_value.keys, ret_value.values):
             kname = k.value if isinstance(k, ast.Constant) else "?"
             # getattr(spec, "key", None) for from_context: the key is a mapping key of the YAML (str)
             if isinstance(v, ast.Call) and call_attr(v) == "getattr" and kname == "key":
